@@ -113,3 +113,6 @@ impl fmt::Debug for Multipart<'_> {
         f.debug_struct("Multipart").finish()
     }
 }
+
+#[cfg(kani)]
+include!(concat!(env!("ATTOHTTPC_VERIF_HARNESS"), "/multipart.rs"));
